@@ -319,7 +319,13 @@ def jaxtyped(fn=_sentinel, *, typechecker=_sentinel):
             fdel = None
         else:
             fdel = jaxtyped(fn.fdel, typechecker=typechecker)
-        return property(fget=fget, fset=fset, fdel=fdel)
+        # A docstring given explicitly (`property(f, doc=...)`) is kept. One taken from
+        # the getter is left for `property` to take from the (wrapped) getter again, so
+        # that `.getter(...)` on the result still picks up the new getter's docstring.
+        doc = fn.__doc__
+        if doc == getattr(fn.fget, "__doc__", None):
+            doc = None
+        return property(fget=fget, fset=fset, fdel=fdel, doc=doc)
     else:
         if typechecker is None:
             # Probably being used in the old style as
